@@ -89,6 +89,13 @@ CHECKS = {
         technique="constant folding + GF(2^8) algebra; finite-function evaluation; abstract interpretation over GF(2)-affine forms",
         note="trusted: CPython ast, sa/algebra.py GF(256) arithmetic, bytes/int operation models",
         ref="DESIGN.md §3 C11"),
+    "C12": dict(
+        text="Static, shape-seeded: the captured packets in the repository's own tests (hex constants read as data) plus sibling shapes (the captured object re-encoded under every other opcode its service accepts) give object shapes by constant evaluation; "
+             "for each shape every scalar/byte field is replaced by symbols and the real as_bytes -> from_bytes -> as_bytes chain is analysed abstractly: every transmitted field bit decoded back, identical re-encoding, HDAP frame rules "
+             "(service|reliable byte, length field in the protocol's endianness, checksum fed with exactly opcode..payload, 0x03, len()), HRNP length field and checksum coverage, HSTRP option TLV chain; text-format rule for the GPS block; optional-field dereference. Two known findings.",
+        technique="abstract interpretation over GF(2)-affine bit forms on shapes obtained by constant evaluation of captured packets; syntax-tree format-width rule",
+        note="trusted: shapes are those of the captures (+siblings) listed in the evidence; checksums are uninterpreted functions of exactly the bytes fed to them (coverage checked, arithmetic not); GPS text block boxed",
+        ref="DESIGN.md §3 C12"),
     "C13": dict(
         text="Static: a symbolic well-formed 72-octet frame (576 atoms under affine well-formedness constraints) is decoded by the real from_ipsc_bytes and by from_kaitai on the object produced by the generated Kaitai parser's own _read "
              "(parser source read as data, stream = cursor over the same atoms); all attributes must be equal bit forms, ids/colour/sequence the bits the frame encodes, as_ipsc_bytes of either object must reproduce all 576 forms, "
@@ -96,6 +103,12 @@ CHECKS = {
         technique="abstract interpretation over GF(2)-affine bit forms of three sibling implementations on one symbolic input (cross-checking siblings); affine path constraints for well-formedness",
         note="trusted: model of the five KaitaiStream read primitives; Burst constructors stubbed in the from_hytera_ipsc rule (C01); well-formedness = fixed header, replicated colour nibble, zero pad octets, byte-palindromic codes (checked)",
         ref="DESIGN.md §3 C13"),
+    "C16": dict(
+        text="Static, shape-seeded (captures of the TMS/ARS tests): per shape all scalar/byte fields symbolic — the 7-bit TMS sequence number and ARS refresh time as bit atoms so that the one/two-octet optional header and reserved-folding enums are decided exactly for all 128 values — "
+             "and the real writer/reader chain analysed abstractly: fields restored, identical re-encoding, leading length == octets that follow, len() agrees; per-octet symbolic wire probe (decode-then-encode); non-ASCII identifier variants for the ARS len-value fields.",
+        technique="abstract interpretation over GF(2)-affine / finite-function domains on shapes obtained by constant evaluation of captured packets",
+        note="trusted: shapes = captures in okdmr/tests/dmrlib/motorola (+ non-ASCII variants); text content opaque; the reserved header bit that the writer normalises is kept at its captured value",
+        ref="DESIGN.md §3 C16"),
     "C17": dict(
         text="Static: every path of the real HSTRP and RRS datagram_received (18 + 65 paths) is enumerated by abstract interpretation with the decoder replaced by 'raises | None | HSTRP with symbolic type bits, S/N, payload kind' "
              "and the transport as an effect-recording stub; hstrp_send_ack/heartbeat/rrs_confirm/deepcopy/as_bytes are interpreted for real, so each answer's bytes are bit forms over the request's atoms. Rules over (fixed type bits, effects, final state): "
